@@ -441,6 +441,9 @@ def random_check(ctx: Ctx, eps: list[dict], ran=None) -> None:
     ctx.evaluations += len(eps)
     ctx.traces += summ["accepted"] + summ["rejected"]
     by_ep = {e["ep"]: e for e in eps}
+    for e in eps:
+        if e["m"] >= 2 and e["fresh"]:
+            ctx.nontrivial(("random", jkey(e["J"]), e["seed"]))
     for rj in res.prints.get("REJECT", []):
         e = by_ep[rj["ep"]]
         ctx.violation(f"random:{rj['clause']}:{e['J']}:seed={e['seed']}",
@@ -476,7 +479,9 @@ def do_replay(ctx: Ctx, rec: dict) -> None:
     elif part == "graddrop" and p["kind"] == "scenario":
         graddrop_judge(ctx, p["scenario"], GD.replay_scenario((p["scenario"], p.get("idx", 0))))
     elif part == "graddrop":
-        graddrop_trace(ctx, [dict(p["episode"], ep=1)])          # the logged episode itself is re-validated
+        e = p["episode"]
+        leak = [Fraction(*q) for q in e["leak"]] if e["leak_given"] else None
+        graddrop_trace(ctx, [GD.observe_call(1, e["J"], leak, e["f"], e["seed"], e.get("observe", bool(e["ubits"])))])
     elif part == "mgda" and p["kind"] == "iterate":
         g = p["group"]
         r = MG.replay_group((g["J"], g["K"], g["eps"], [p["exp"]], g["cands"], None))
@@ -656,8 +661,12 @@ def run(ctx: Ctx, replay: str | None) -> None:
 
     ctx.exhaustive = False
     ctx.extra["exhaustive_parts"] = {
-        "pcgrad_m<=3_entries-1..1_2cols_all_orders_replayed": True,
-        "pcgrad_m=4": f"seeded sample of {len(m4)} matrices x 1296 order combinations, all replayed",
-        "mgda_iterates_family_replayed_completely": True,
-        "graddrop": "content-hash sample of the exported scenarios (1/4 quick, 1/3 thorough)",
+        "pcgrad": "all m <= 3 x 2 matrices with entries -1..1" + ("" if quick else " (and all 3 x 2 with entries -2..2, 1/4 of all "
+                  "3 x 3 with entries -1..1)") + ", every combination of projection orders, model-checked AND replayed; "
+                  f"m = 4: seeded sample of {len(m4)} matrices x all 1296 order combinations",
+        "mgda": "every exported family (see scenarios_exported) model-checked and replayed completely at 3 scales, except "
+                "groups counted as skipped (denominator > 10^4, mixed depth)",
+        "graddrop": "model-checked completely; a content-hash sample of the scenarios (1/4 quick, 1/3 thorough) replayed, "
+                    "each with two forced draws",
+        "cagrad/random": "predicate level on the enumerated instances" + (" (every other instance, one c each)" if quick else ""),
     }
